@@ -509,6 +509,8 @@ def shrink(prop, f, binaries):
             return f
         vals = t[5:]
         qt = f.cmd.split()
+        if len(qt) > 1 and qt[0] == "Q" and qt[1].startswith("u"):
+            return f          # an unchecked call is meaningful only inside its contract, which depends on the data
 
         def fails(vs, q):
             ls = ["CASE s", " ".join(t[:4] + [str(len(vs))] + vs), q]
@@ -655,6 +657,21 @@ def load_corpus(prop):
                 b = json.load(open(os.path.join(d, fn)))
                 c = C.Case("corpus-" + fn[:-5], model=b.get("model", True), tags=dict(corpus=True))
                 c.lines = b["lines"]
+                # the attributes the per-property post-checks read (sequence, family), from the NEW line
+                c.seq, c.fam = [], ""
+                for l in c.lines:
+                    t = l.split()
+                    if t and t[0] == "NEW" and len(t) >= 3:
+                        kind = t[1]
+                        c.fam = ("hq" if kind.startswith("hqwt") else "q" if kind.startswith("qwt") else "hw" if kind == "hwt"
+                                 else "w" if kind == "wt" else "da" if kind.startswith("darray") else
+                                 "rsq" if kind.startswith("rsq") else kind)
+                        try:
+                            c.seq = [int(x) for x in t[5:]]
+                        except ValueError:
+                            c.seq = []
+                        c.tags.setdefault("kind", kind)
+                        break
                 out.append(c)
     return out
 
